@@ -32,12 +32,15 @@ KERNELS_OF = {
 NP_OF = {
     'C14': [('UtilsTests', ['is_quadratic', 'is_transition_matrix', 'is_ergodic', 'is_fuzzy_ergodic', 'ergodic_mask'])],
     'C04': [('UtilsTests', ['is_ergodic', 'ergodic_mask']), ('MsmNorm', ['row_normalize_matrix', 'equilibrium_population'])],
-    'C01': [('MsmNorm', ['row_normalize_matrix']), ('MsmEstimate', ['estimate_markov_model_perm', 'estimate_markov_model_default'])],
+    'C01': [('StateTrajInit', ['init']), ('MsmNorm', ['row_normalize_matrix']), ('MsmEstimate', ['estimate_markov_model_perm', 'estimate_markov_model_default'])],
     'C03': [('StateTrajHS', ['_estimate_markov_model']), ('MsmNorm', ['row_normalize_matrix'])],
     'C09': [('MsmTests', ['_calc_times'])],
     'C19': [('PlotCkTest', ['_split_array'])],
     'C05': [('MdCoringApi', ['dynamical_coring'])],
     'C20': [('UtilsFiltering', ['runningmean'])],
+    'C15': [('UtilsRelabel', ['unique', 'unique_counts', 'shift_data', 'rename_by_index', 'rename_by_population'])],
+    'C02': [('StateTrajInit', ['init'])],
+    'C17': [('StateTrajInit', ['init']), ('UtilsRelabel', ['rename_by_index'])],
     'C16': [('IoLimits', ['open_limits_file'])],
     'C06': [('MdTimesApi', ['estimate_waiting_times', 'estimate_paths'])],
     'C13': [('MdCompareApi', ['compare_discretization_symmetric', 'compare_discretization_directed'])],
@@ -51,7 +54,7 @@ SOURCE_OF = {'MsmMsm': 'msm/msm.py', 'MdCorrections': 'md/corrections.py', 'MdTi
              'MsmTimescales': 'msm/timescales.py', 'MdComparison': 'md/comparison.py', 'UtilsUtils': 'utils/_utils.py',
              'UtilsTests': 'utils/tests.py', 'MsmNorm': 'msm/msm.py', 'PlotCkTest': 'plot/_ck_test.py', 'MsmTests': 'msm/tests.py',
              'StateTrajHS': 'statetraj.py', 'MsmCummat': 'msm/timescales.py', 'MsmTimes': 'msm/timescales.py', 'StateTrajBase': 'statetraj.py',
-             'MsmEstimate': 'msm/msm.py', 'MsmMcmcApi': 'msm/timescales.py', 'UtilsFiltering': 'utils/filtering.py', 'IoLimits': 'io.py',
+             'UtilsRelabel': 'utils/_utils.py', 'StateTrajInit': 'statetraj.py', 'MsmEstimate': 'msm/msm.py', 'MsmMcmcApi': 'msm/timescales.py', 'UtilsFiltering': 'utils/filtering.py', 'IoLimits': 'io.py',
              'MdCompareApi': 'md/comparison.py', 'MdTimesApi': 'md/timescales.py', 'MdCoringApi': 'md/corrections.py'}
 ATOL = 1e-8
 G = 1 << 53
@@ -221,6 +224,42 @@ def gen_cases(module, kernel, rng, n):
             else:
                 yield {'k': kernel, 'args': None, 'trajs': trajs, 'lag': rng.choice([-1, 0, 1, 2, 2, 3, 3, 4]), 'iterative': rng.random() < 0.5,
                        'lumped': rng.random() < 0.08, 'mode': 'py'}
+        elif module in ('UtilsRelabel', 'StateTrajInit'):
+            ns_ = rng.randint(1, 6)
+            cls = rng.choice(['zero', 'one', 'gapped', 'negative', 'negative', 'unsorted'])
+            if cls == 'zero':
+                labs = list(range(ns_))
+            elif cls == 'one':
+                labs = list(range(1, ns_ + 1))
+            else:
+                labs = rng.sample(range(-40 if cls != 'gapped' else 0, 60), ns_)
+            trajs = [[rng.choice(labs) for _ in range(rng.randint(0 if rng.random() < 0.1 else 1, 10))] for _ in range(rng.randint(1, 3))]
+            if not any(trajs):
+                trajs[0] = [labs[0]]
+            if kernel == 'shift_data':
+                occ = sorted({x for t in trajs for x in t})
+                kind = rng.random()
+                if kind < 0.5:
+                    old = rng.sample(occ, rng.randint(1, len(occ)))
+                    new = old[:]
+                    rng.shuffle(new)                         # a permutation of some labels (swaps, cycles)
+                elif kind < 0.8:
+                    old = rng.sample(occ, rng.randint(1, len(occ)))
+                    new = [rng.randint(-30, 90) for _ in old]
+                elif kind < 0.9:
+                    old = [rng.randint(min(occ) - 5, max(occ) + 5) for _ in range(rng.randint(1, 4))]      # old values that may not occur / lie outside
+                    new = [rng.randint(-30, 90) for _ in old]
+                else:
+                    old = rng.sample(occ, min(2, len(occ)))
+                    new = [rng.randint(-5, 5) for _ in range(rng.choice([1, 3]))]                            # length mismatch (one value broadcasts)
+                yield {'k': kernel, 'args': [trajs, old, new], 'mode': 'py'}
+            elif kernel == 'rename_by_population':
+                import numpy as np
+                flat = np.concatenate([np.array(t, dtype=np.int64) for t in trajs])
+                _u, cnt = np.unique(flat, return_counts=True)
+                yield {'k': kernel, 'args': [trajs], 'oracle': {'argsort': [int(i) for i in np.argsort(cnt)]}, 'mode': 'py'}
+            else:
+                yield {'k': kernel, 'args': [trajs], 'mode': 'py'}
         elif module == 'MsmEstimate':
             ns_ = rng.randint(1, 5)
             trajs = [_traj(rng, rng.randint(0, 12), 0, ns_ - 1) for _ in range(rng.randint(1, 3))]
@@ -380,7 +419,7 @@ def real_one(module, case):
     elif module == 'MsmMcmcApi':
         inputs = {'args': case['args'], 'oracle': {'choice': case['args'][0][0], 'cummat': [[['1']], [[0]]], 'propagate': case['chain']}}
         fn = None
-    elif module == 'MsmEstimate':
+    elif module in ('MsmEstimate', 'UtilsRelabel', 'StateTrajInit'):
         inputs, fn = None, None
     elif module in ('StateTrajBase', 'UtilsFiltering', 'IoLimits'):
         inputs, fn = None, None
@@ -544,6 +583,22 @@ def real_one(module, case):
         if module == 'StateTrajBase':
             import msmhelper as mh
             return int(mh.StateTraj([np.array(a[0], dtype=np.int64)]).state_to_idx(a[1]))
+        if module in ('UtilsRelabel', 'StateTrajInit'):
+            import msmhelper as mh
+            arrs = [np.array(t, dtype=np.int64) for t in a[0]]
+            if module == 'StateTrajInit':
+                o = mh.StateTraj(arrs)
+                return [[[int(x) for x in t] for t in o._trajs], [int(x) for x in o._states]]
+            if k == 'unique':
+                return [int(x) for x in mh.unique(arrs)]
+            if k == 'unique_counts':
+                u, c = mh.unique(arrs, return_counts=True)
+                return [[int(x) for x in u], [int(x) for x in c]]
+            if k == 'shift_data':
+                return [[int(x) for x in t] for t in mh.shift_data(arrs, a[1], a[2])]
+            fn_ = mh.rename_by_index if k == 'rename_by_index' else mh.rename_by_population
+            r, perm = fn_(arrs, return_permutation=True)
+            return [[[int(x) for x in t] for t in r], [int(x) for x in perm]]
         if module == 'MsmEstimate':
             if k.endswith('perm'):
                 T, perm = mod._estimate_markov_model([np.array(t, dtype=np.int64) for t in a[0]], a[1], a[2], np.array(a[3]))
